@@ -415,8 +415,15 @@ def invoke(tname, F, argpack):
     import cnfgen
     args, kwargs = argpack
     random.seed(19)               # Shuffle(...,'shuffle') draws from `random`
+    name = alpha()[tname][0]
+    fun = getattr(cnfgen, name, None)
+    if fun is None:
+        # public functions of the transformation modules that the package does
+        # not re-export (LinearSubstitution, AndSubstitution)
+        import cnfgen.transformations.substitutions as _subs
+        fun = getattr(_subs, name)
     try:
-        return getattr(cnfgen, alpha()[tname][0])(F, *args, **kwargs), None
+        return fun(F, *args, **kwargs), None
     except Exception as e:        # refusals are legitimate; inputs must stay untouched anyway
         return None, e
 
